@@ -12,8 +12,13 @@ DEFAULTS = [
     ({"type": "array", "items": {"type": "string"}}, ["a", "b"]), ({"type": "array", "items": {"type": "integer"}}, [1, 2, 3]),
     ({"type": "array", "items": {"type": "number"}}, [0.5]), ({"type": "string", "enum": ["red", "green", "blue"]}, "green"),
     ({"enum": ["on", "off"]}, "off"), ("REF-ENUM", "q"), ("REF-STR", "xyz"),
+    # literals whose rendering depends on the Go type of the field: fractional defaults on untyped / multi-typed / enum-typed fields
+    ({}, 2.5), ({"type": ["number", "string"]}, 0.75), ({"type": "number", "enum": [0.25, 0.5, 0.75]}, 0.5), ({"type": "integer", "enum": [1, 2, 3]}, 2),
+    ({}, True), ({}, -3.5), ({"type": "string"}, "50%off \"q\" back\\slash `t` %d"), ({"type": "array", "items": {"type": "string"}}, ["100%", "a\nb"]),        # (a default on a nullable primitive does not compile: finding C01-default-on-nullable)
 ]
-OTHER = {0.5: 1.5, -0.25: 2.5, 0.75: 0.25, -1: 3, "hello": "other", "abc": "zz", 7: 8, 5: 6, 2.5: 3.5, 1.5: 2.0, True: False, "free": "bound", 12: 13, "green": "blue", "off": "on", "q": "p", "xyz": "abcd"}
+# the property carrying the default: names containing Go type words (the generated type / field names contain them too)
+KEYS = ["d", "checkpoint", "substring", "afloat", "mapped", "hint"]
+OTHER = {"50%off \"q\" back\\slash `t` %d": "plain", 1.25: 2.25, 4: 5, "maybe": "surely", -3.5: 3.5, 2: 3, 0.5: 1.5, -0.25: 2.5, 0.75: 0.25, -1: 3, "hello": "other", "abc": "zz", 7: 8, 5: 6, 2.5: 3.5, 1.5: 2.0, True: False, "free": "bound", 12: 13, "green": "blue", "off": "on", "q": "p", "xyz": "abcd"}
 
 
 def systematic():
@@ -29,9 +34,10 @@ def systematic():
                 p = {"$ref": "#/$defs/S", "default": dv}
             else:
                 p = dict(sch, default=dv)
-            inner = {"type": "object", "properties": {"d": p, "k": {"type": "integer"}}}
+            dk = KEYS[(i + len(out)) % len(KEYS)]
+            inner = {"type": "object", "properties": {dk: p, "k": {"type": "integer"}}}
             if pos == "required":
-                inner["required"] = ["d"]
+                inner["required"] = [dk]
             if pos in ("optional", "required"):
                 root = inner
             elif pos == "nested":
@@ -43,7 +49,7 @@ def systematic():
                 root = {"type": "object", "properties": {"r": {"$ref": "#/$defs/Inner"}}}
             if defs:
                 root["$defs"] = defs
-            out.append((root, pos, dv, p))
+            out.append((root, pos, dv, p, dk))
     return out
 
 
@@ -63,12 +69,24 @@ def colliding():
     return out
 
 
-def docs_for(pos, dv, p):
+def docs_for(pos, dv, p, dk="d"):
+    return [(tag, rekey(d, dk), tuple(dk if x == "d" else x for x in path)) for tag, d, path in docs_for_d(pos, dv, p)]
+
+
+def rekey(d, dk):
+    if isinstance(d, dict):
+        return {(dk if k == "d" else k): rekey(v, dk) if k != "d" else v for k, v in d.items()}
+    if isinstance(d, list):
+        return [rekey(x, dk) for x in d]
+    return d
+
+
+def docs_for_d(pos, dv, p):
     other = OTHER.get(dv if not isinstance(dv, list) else None)
     if isinstance(dv, list):
         other = dv[:1] + dv[:1]
     inner = [("absent", {"k": 1}), ("null", {"k": 1, "d": None}), ("present-other", {"k": 1, "d": other}), ("present-same", {"d": copy.deepcopy(dv)})]
-    if "enum" in p or "$ref" in p:
+    if "enum" in p or "$ref" in p or (isinstance(p.get("type"), list) and "null" in p["type"]):
         inner = [x for x in inner if x[0] != "null"]         # D37: an enum-typed default is not applied for null
     out = []
     for tag, d in inner:
@@ -97,8 +115,8 @@ def get_path(doc, path):
 def run(ctx):
     ctx.proof_step(PROPS_FILE)
     cases = []
-    for i, (root, pos, dv, p) in enumerate(systematic()):
-        docs = [{"doc": d, "cls": "default-" + tag, "path": path, "dv": dv} for tag, d, path in docs_for(pos, dv, p)]
+    for i, (root, pos, dv, p, dk) in enumerate(systematic()):
+        docs = [{"doc": d, "cls": "default-" + tag, "path": path, "dv": dv} for tag, d, path in docs_for(pos, dv, p, dk)]
         cases.append(Case("c09s%d" % i, root, docs, fam="systematic"))
     coll = []
     for i, (root, docs) in enumerate(colliding()):
